@@ -15,6 +15,8 @@ From Coq Require Import List ZArith Bool String.
 Require Import MTX.Lib.PathClean MTX.Model.C34_Descriptors MTX.Model.C35_PreAuth MTX.Proofs.C35_PreAuth.
 Require Import MTX.Model.C35_SessionConc MTX.Proofs.C35_SessionConc MTX.Proofs.C35_SessionRun.
 Require MTXGen.C35_SessionPaths.
+Require Import MTX.Model.C35_TsIngest.
+Require MTX.Proofs.C35_TsIngest.
 Import ListNotations.
 Local Open Scope Z_scope.
 
@@ -344,3 +346,82 @@ Example C35_session_examples :
       | RRun g ts => (g_tracks g, map t_res ts) | _ => (None, []) end)
      = (Some 0, [Some ENil; Some ESubCatalogClosed; Some ETrackRange]).
 Proof. exact as_found_examples. Qed.
+
+
+(* ---- publisher DATA: MPEG-TS ingestion (SRT connection, RTSP MPEG-TS demuxer, MPEG-TS / SRT sources) ---------------
+   Model/C35_TsIngest.v: EnhancedReader.Initialize (LATM pre-scan: per-track `done` flags, shared counter
+   tracksToParse), ToStream (nil StreamMuxConfig -> ClockRate() panics), the data callbacks, the caller's read loop.
+   Tracks (any number, any codecs, PIDs may repeat) and the event list (any order of PES packets of any tracks,
+   decodable or not) are universally quantified; what the third-party demuxer / decoders make of bytes is data. *)
+Module P := MTX.Proofs.C35_TsIngest.
+Local Open Scope Z_scope.
+
+(* when the pre-scan ends without error, EVERY LATM track has its configuration: ToStream never sees a track without *)
+Theorem C35_ts_prescan_complete : forall ts evs st,
+  TS.prescan TS.PvCode ts (TS.p_init ts) evs = TS.PsOk st ->
+  forall t, In t ts -> TS.is_latm t = true -> TS.p_cfgs st (TS.t_pid t) <> None.
+Proof. exact P.prescan_complete. Qed.
+Print Assumptions C35_ts_prescan_complete.
+
+Theorem C35_ts_to_stream_no_panic : forall ts evs st,
+  TS.prescan TS.PvCode ts (TS.p_init ts) evs = TS.PsOk st -> TS.to_stream (TS.p_cfgs st) ts <> TS.TsPanic.
+Proof. exact P.to_stream_no_panic. Qed.
+Print Assumptions C35_ts_to_stream_no_panic.
+
+(* the whole publisher goroutine (Initialize; ToStream; for { Read() }) never panics; the hypothesis is the
+   library's guarantee that a decoded AudioSyncStream has at least one element (needed: C35_ts_empty_els_refuted) *)
+Theorem C35_ts_ingest_no_panic : forall ts evs,
+  forallb (TS.ev_nonempty ts) evs = true -> TS.ingest TS.PvCode ts evs <> TS.IPanic.
+Proof. exact P.ingest_no_panic. Qed.
+Print Assumptions C35_ts_ingest_no_panic.
+
+(* the read loop's callbacks find the configuration too *)
+Theorem C35_ts_read_loop_has_config : forall ts evs st pid i,
+  TS.prescan TS.PvCode ts (TS.p_init ts) evs = TS.PsOk st -> TS.cb_of TS.is_supported ts pid = Some i ->
+  TS.is_latm (TS.trk ts i) = true -> TS.p_cfgs st (TS.t_pid (TS.trk ts i)) <> None.
+Proof. exact P.read_loop_has_config. Qed.
+Print Assumptions C35_ts_read_loop_has_config.
+
+(* one media per supported track *)
+Theorem C35_ts_medias_count : forall cfgs ts ms, TS.to_stream_medias cfgs ts = Some ms ->
+  List.length ms = List.length (filter TS.is_supported ts).
+Proof. exact P.to_stream_medias_count. Qed.
+Print Assumptions C35_ts_medias_count.
+
+(* the statement orders next to the code: no `done` flag (two PES packets of one LATM track complete before the first
+   of another), decrement not tied to a successful Unmarshal, loop bound off by one *)
+Theorem C35_ts_no_done_refuted : exists ts evs,
+  forallb (TS.ev_nonempty ts) evs = true /\ TS.ingest TS.PvNoDone ts evs = TS.IPanic /\
+  exists ms r u e, TS.ingest TS.PvCode ts evs = TS.IRan ms r u e.
+Proof.
+  exists [P.latm 256; P.latm 257], [TS.EvData 256 [TS.ElOwn 0]; TS.EvData 256 [TS.ElOwn 0]; TS.EvData 257 [TS.ElOwn 1]].
+  split; [reflexivity|]. split; [exact P.no_done_panics|]. eexists _, _, _, _. exact P.no_done_code_ok.
+Qed.
+Print Assumptions C35_ts_no_done_refuted.
+
+Theorem C35_ts_dec_on_fail_refuted : exists ts evs,
+  forallb (TS.ev_nonempty ts) evs = true /\ TS.ingest TS.PvDecOnFail ts evs = TS.IPanic.
+Proof. exists [P.latm 256], [TS.EvData 256 [TS.ElSame [0]]; TS.EvData 256 [TS.ElOwn 0]]. split; [reflexivity|exact P.dec_on_fail_panics]. Qed.
+Print Assumptions C35_ts_dec_on_fail_refuted.
+
+Theorem C35_ts_loop_off_by_one_refuted : exists ts evs,
+  forallb (TS.ev_nonempty ts) evs = true /\ TS.ingest TS.PvLoopOffByOne ts evs = TS.IPanic.
+Proof. exists [P.latm 256], [TS.EvData 256 [TS.ElOwn 0]]. split; [reflexivity|exact P.loop_off_by_one_panics]. Qed.
+Print Assumptions C35_ts_loop_off_by_one_refuted.
+
+Theorem C35_ts_empty_els_refuted : exists ts evs, TS.ingest TS.PvCode ts evs = TS.IPanic.
+Proof. exists [P.latm 256], [TS.EvData 256 []]. exact P.empty_els_panics. Qed.
+Print Assumptions C35_ts_empty_els_refuted.
+
+Example C35_ts_examples :
+  TS.ingest TS.PvCode [P.latm 256]
+    [TS.EvNone; TS.EvData 256 [TS.ElSame [0]]; TS.EvData 256 [TS.ElBad]; TS.EvData 256 [TS.ElOwn 0; TS.ElSame [0]]; TS.EvData 256 [TS.ElSame [0]]]
+    = TS.IRan [Some 0] 2 1 TS.RDecode
+  /\ TS.ingest TS.PvCode [P.latm 256; {| TS.t_pid := 257; TS.t_codec := TS.KOther |}]
+       [TS.EvData 257 []; TS.EvData 256 [TS.ElOwn 0]; TS.EvData 256 [TS.ElOwn 1]] = TS.IRan [Some 0; None] 2 2 TS.RDynamic
+  /\ TS.ingest TS.PvCode [P.latm 256; P.latm 257] [TS.EvData 256 [TS.ElOwn 0]; TS.EvData 256 [TS.ElOwn 0]] = TS.IInitErr
+  /\ TS.ingest TS.PvCode [{| TS.t_pid := 256; TS.t_codec := TS.KUnsupported |}] [TS.EvData 256 []] = TS.INoCodecs
+  /\ TS.ingest TS.PvCode [P.latm 256; P.latm 256] [TS.EvData 256 [TS.ElOwn 0]; TS.EvData 256 [TS.ElOwn 0]] = TS.IInitErr
+  /\ forallb (TS.ev_nonempty [P.latm 256; P.latm 257])
+       [TS.EvData 256 [TS.ElOwn 0]; TS.EvData 256 [TS.ElOwn 0]; TS.EvData 257 [TS.ElOwn 1]] = true.
+Proof. exact P.examples. Qed.
